@@ -1,5 +1,6 @@
 import BasicModel.Lemmas.AssocList
 import BasicModel.Lemmas.KeyText
+import BasicModel.Thm.C08
 /-
   C06 — Variables and arrays are typed, zero-initialised, bounds-checked, never aliased.
 
@@ -415,6 +416,26 @@ theorem buildArrayKey_conv_ok (v : Var) (n : Str) (arr : List Val) (is : List In
     · have : ¬ Accepts is (List.replicate is.length 10) := fun a => hw (hacc.1 a).2
       simp [hw, this]
 
+/-- shape of a successful conversion of a non-empty subscript list -/
+theorem vecValToVecI16_cons_ok {x : Val} {r : List Val} {is : List Int16}
+    (h : vecValToVecI16 (x :: r) = .ok is) :
+    ∃ n rest, x.toI16 = .ok n ∧ ¬ n < 0 ∧ vecValToVecI16 r = .ok rest ∧ is = n :: rest := by
+  unfold vecValToVecI16 at h
+  cases hx : x.toI16 with
+  | error e =>
+    rw [hx] at h
+    simp only at h
+    split at h <;> cases h
+  | ok n =>
+    rw [hx] at h
+    simp only at h
+    split at h
+    · cases h
+    · rename_i hneg
+      obtain ⟨rest, hrest, h3⟩ := bind_ok h
+      cases h3
+      exact ⟨n, rest, rfl, hneg, hrest, rfl⟩
+
 /-- converted subscripts are never negative -/
 theorem vecValToVecI16_nonneg : ∀ {arr : List Val} {is : List Int16},
     vecValToVecI16 arr = .ok is → ∀ i ∈ is, (0 : Int16) ≤ i
@@ -422,17 +443,11 @@ theorem vecValToVecI16_nonneg : ∀ {arr : List Val} {is : List Int16},
     simp only [vecValToVecI16, Except.ok.injEq] at h
     subst h; intro i hi; cases hi
   | x :: r, is, h => by
-    simp only [vecValToVecI16] at h
-    obtain ⟨n, _, h2⟩ := bind_ok h
-    split at h2
-    · cases h2
-    · rename_i hneg
-      obtain ⟨rest, hrest, h3⟩ := bind_ok h2
-      cases h3
-      intro i hi
-      rcases List.mem_cons.1 hi with rfl | hi
-      · exact Int16.not_lt.1 hneg
-      · exact vecValToVecI16_nonneg hrest i hi
+    obtain ⟨n, rest, _, hneg, hrest, rfl⟩ := vecValToVecI16_cons_ok h
+    intro i hi
+    rcases List.mem_cons.1 hi with rfl | hi
+    · exact Int16.not_lt.1 hneg
+    · exact vecValToVecI16_nonneg hrest i hi
 
 theorem vecValToVecI16_length : ∀ {arr : List Val} {is : List Int16},
     vecValToVecI16 arr = .ok is → is.length = arr.length
@@ -440,13 +455,8 @@ theorem vecValToVecI16_length : ∀ {arr : List Val} {is : List Int16},
     simp only [vecValToVecI16, Except.ok.injEq] at h
     subst h; rfl
   | x :: r, is, h => by
-    simp only [vecValToVecI16] at h
-    obtain ⟨n, _, h2⟩ := bind_ok h
-    split at h2
-    · cases h2
-    · obtain ⟨rest, hrest, h3⟩ := bind_ok h2
-      cases h3
-      simp [vecValToVecI16_length hrest]
+    obtain ⟨n, rest, _, _, hrest, rfl⟩ := vecValToVecI16_cons_ok h
+    simp [vecValToVecI16_length hrest]
 
 /-! ### the type of an element key is the type of the array name -/
 
@@ -545,8 +555,9 @@ theorem bounds_store (v : Var) (n : Str) (arr : List Val) (is : List Int16) (x :
     rw [buildArrayKey_conv_ok v n arr is h, if_neg hacc]
     rfl
 
-/-- subscripts that do not convert (not numeric, negative, beyond 32767) fail without touching the
-    store -/
+/-- subscripts that do not convert fail without touching the store (for numbers the error is
+    SUBSCRIPT OUT OF RANGE, for anything else the conversion's TYPE MISMATCH:
+    `vecValToVecI16_numeric`) -/
 theorem bounds_conv_error (v : Var) (n : Str) (arr : List Val) (x : Val) (e : Error)
     (h : vecValToVecI16 arr = .error e) :
     v.fetchArray n arr = (v, .error e) ∧ v.storeArray n arr x = (v, .error e) := by
@@ -556,6 +567,235 @@ example : (Var.new.fetchArray "A".toList [.int 10]).2 = .ok (.sng 0) ∧
     (Var.new.fetchArray "A".toList [.int 11]).2 = err Code.subscriptOutOfRange ∧
     (Var.new.fetchArray "A".toList [.int 1, .int 1]).2 = .ok (.sng 0) ∧
     (Var.new.fetchArray "A".toList [.int (-1)]).2 = err Code.subscriptOutOfRange := by decide
+
+/-! ### subscript_out_of_range_exact: exactly 0..bound is accepted, every other number is error 9 -/
+
+/-- the mathematical value of a numeric subscript: the Integer itself, ⌊x⌋ of a float
+    (`none`: NaN, ±inf, or not a number at all) -/
+def subZ : Val → Option Int
+  | .int n => some n.toInt
+  | .sng b => Val.floorZ (.sng b)
+  | .dbl b => Val.floorZ (.dbl b)
+  | _ => none
+
+/-- subscripts `arr` lie within bounds `ds`: as many subscripts as dimensions, and each one is a
+    number whose value `z` satisfies `0 ≤ z ≤ bound` -/
+def InBounds : List Val → List Int16 → Prop
+  | [], [] => True
+  | x :: xs, d :: ds => (∃ z, subZ x = some z ∧ 0 ≤ z ∧ z ≤ d.toInt) ∧ InBounds xs ds
+  | _, _ => False
+
+theorem toI16_ok_subZ {x : Val} {n : Int16} (hx : x.isNumeric = true) (h : x.toI16 = .ok n) :
+    subZ x = some n.toInt := by
+  cases x with
+  | int m => simp only [Val.toI16, Except.ok.injEq] at h; subst h; rfl
+  | sng b =>
+    simp only [Val.toI16] at h
+    simp only [subZ]
+    cases hz : Val.floorZ (.sng b) with
+    | none => rw [hz] at h; cases h
+    | some z =>
+      rw [hz] at h
+      simp only at h
+      split at h
+      · rename_i hr
+        cases h
+        rw [Int16.toInt_ofInt, C08.bmod_id hr]
+      · cases h
+  | dbl b =>
+    simp only [Val.toI16] at h
+    simp only [subZ]
+    cases hz : Val.floorZ (.dbl b) with
+    | none => rw [hz] at h; cases h
+    | some z =>
+      rw [hz] at h
+      simp only at h
+      split at h
+      · rename_i hr
+        cases h
+        rw [Int16.toInt_ofInt, C08.bmod_id hr]
+      · cases h
+  | str s => cases hx
+  | ret a => cases hx
+  | nxt a => cases hx
+
+theorem toI16_err_subZ {x : Val} {e : Error} (h : x.toI16 = .error e) :
+    ∀ z, subZ x = some z → ¬ (-32768 ≤ z ∧ z ≤ 32767) := by
+  intro z hz hr
+  cases x with
+  | int m => cases h
+  | sng b =>
+    simp only [subZ] at hz
+    simp only [Val.toI16, hz] at h
+    rw [if_pos hr] at h; cases h
+  | dbl b =>
+    simp only [subZ] at hz
+    simp only [Val.toI16, hz] at h
+    rw [if_pos hr] at h; cases h
+  | str s => cases hz
+  | ret a => cases hz
+  | nxt a => cases hz
+
+theorem not_inBounds_nil_cons (d : Int16) (ds : List Int16) : ¬ InBounds [] (d :: ds) := by
+  intro h; simp [InBounds] at h
+
+theorem not_inBounds_cons_nil (x : Val) (xs : List Val) : ¬ InBounds (x :: xs) [] := by
+  intro h; simp [InBounds] at h
+
+/-- numeric subscripts either all convert — and then "within bounds" is exactly the comparison the
+    code makes — or the conversion itself is SUBSCRIPT OUT OF RANGE and no bounds contain them -/
+theorem vecValToVecI16_numeric : ∀ (arr : List Val), (∀ x ∈ arr, x.isNumeric = true) →
+    (vecValToVecI16 arr = err Code.subscriptOutOfRange ∧ ∀ ds, ¬ InBounds arr ds) ∨
+    (∃ is, vecValToVecI16 arr = .ok is ∧
+      ∀ ds, InBounds arr ds ↔ (is.length = ds.length ∧ withinBounds is ds = true))
+  | [], _ => by
+    right
+    refine ⟨[], rfl, ?_⟩
+    intro ds
+    cases ds with
+    | nil => simp [InBounds, withinBounds]
+    | cons d ds => simp [InBounds]
+  | x :: xs, hnum => by
+    have hx : x.isNumeric = true := hnum x List.mem_cons_self
+    have hxs : ∀ y ∈ xs, y.isNumeric = true := fun y hy => hnum y (List.mem_cons_of_mem _ hy)
+    cases hconv : x.toI16 with
+    | error e =>
+      left
+      constructor
+      · unfold vecValToVecI16
+        rw [hconv]
+        simp only [hx, if_true]
+      · intro ds hb
+        cases ds with
+        | nil => exact not_inBounds_cons_nil x xs hb
+        | cons d ds =>
+          obtain ⟨⟨z, hz, h0, hd⟩, _⟩ := hb
+          have := C08.toInt_range d
+          exact toI16_err_subZ hconv z hz ⟨by omega, by have := this.2; omega⟩
+    | ok n =>
+      have hsub := toI16_ok_subZ hx hconv
+      by_cases hneg : n < 0
+      · left
+        constructor
+        · unfold vecValToVecI16
+          rw [hconv]
+          simp only [hneg, if_true]
+        · intro ds hb
+          cases ds with
+          | nil => exact not_inBounds_cons_nil x xs hb
+          | cons d ds =>
+            obtain ⟨⟨z, hz, h0, _⟩, _⟩ := hb
+            rw [hsub] at hz
+            cases hz
+            have : n.toInt < (0 : Int16).toInt := Int16.lt_iff_toInt_lt.1 hneg
+            have h00 : (0 : Int16).toInt = 0 := by decide
+            omega
+      · rcases vecValToVecI16_numeric xs hxs with ⟨herr, hno⟩ | ⟨is, hok, hiff⟩
+        · left
+          constructor
+          · unfold vecValToVecI16
+            rw [hconv]
+            simp only [hneg, if_false, herr]
+            rfl
+          · intro ds hb
+            cases ds with
+            | nil => exact not_inBounds_cons_nil x xs hb
+            | cons d ds => exact hno ds hb.2
+        · right
+          refine ⟨n :: is, ?_, ?_⟩
+          · unfold vecValToVecI16
+            rw [hconv]
+            simp only [hneg, if_false, hok]
+            rfl
+          · intro ds
+            cases ds with
+            | nil =>
+              constructor
+              · intro hb; exact absurd hb (not_inBounds_cons_nil x xs)
+              · intro ⟨hl, _⟩; simp at hl
+            | cons d ds =>
+              have hn0 : 0 ≤ n.toInt := by
+                have : (0 : Int16) ≤ n := Int16.not_lt.1 hneg
+                have := Int16.le_iff_toInt_le.1 this
+                have h00 : (0 : Int16).toInt = 0 := by decide
+                omega
+              show ((∃ z, subZ x = some z ∧ 0 ≤ z ∧ z ≤ d.toInt) ∧ InBounds xs ds) ↔ _
+              rw [hiff ds]
+              have hwb : withinBounds (n :: is) (d :: ds) =
+                  if n > d then false else withinBounds is ds := rfl
+              rw [hwb]
+              simp only [List.length_cons, Nat.add_right_cancel_iff]
+              by_cases hgt : n > d
+              · have : ¬ n.toInt ≤ d.toInt := by
+                  have := Int16.lt_iff_toInt_lt.1 hgt; omega
+                simp only [hgt, if_true, Bool.false_eq_true, and_false, iff_false]
+                rintro ⟨⟨z, hz, _, hzd⟩, _⟩
+                rw [hsub] at hz; cases hz
+                exact this hzd
+              · have hle : n.toInt ≤ d.toInt := Int16.le_iff_toInt_le.1 (Int16.not_lt.1 hgt)
+                simp only [hgt, if_false]
+                constructor
+                · rintro ⟨_, h2⟩; exact h2
+                · intro h2; exact ⟨⟨n.toInt, hsub, hn0, hle⟩, h2⟩
+
+/-- **The bounds sentence of C06, at full strength.**  On a well-named array, numeric subscripts are
+    accepted exactly when there are as many as dimensions and each value lies in 0..bound (bound 10
+    in every dimension when the array was not declared); *every* other list of numbers — negative,
+    beyond the bound, beyond the Integer range, NaN, infinite, wrong count — is SUBSCRIPT OUT OF
+    RANGE.  For `fetch_array`: -/
+theorem subscript_out_of_range_exact (v : Var) (hv : Typed v) (n : Str) (hn : n ≠ []) (t : VarTy)
+    (ht : v.tyOf n = .ok (some t)) (arr : List Val) (hnum : ∀ x ∈ arr, x.isNumeric = true) :
+    (InBounds arr (dimsOf v n arr.length) →
+        ∃ x, (v.fetchArray n arr).2 = .ok x ∧ x.ty = t.toTy) ∧
+    (¬ InBounds arr (dimsOf v n arr.length) →
+        (v.fetchArray n arr).2 = err Code.subscriptOutOfRange) := by
+  rcases vecValToVecI16_numeric arr hnum with ⟨herr, hno⟩ | ⟨is, hok, hiff⟩
+  · refine ⟨fun hb => absurd hb (hno _), fun _ => ?_⟩
+    have := (bounds_conv_error v n arr (.int 0) _ herr).1
+    rw [this]; rfl
+  · have hlen := vecValToVecI16_length hok
+    obtain ⟨b1, b2, _⟩ := bounds_fetch v hv n hn t ht arr is hok
+    rw [hlen] at b1 b2
+    constructor
+    · intro hb
+      exact b1 ((accepts_iff _ _).2 ((hiff _).1 hb))
+    · intro hb
+      exact b2 (fun hacc => hb ((hiff _).2 ((accepts_iff _ _).1 hacc)))
+
+/-- … and for `store_array`: nothing is stored and the error is SUBSCRIPT OUT OF RANGE -/
+theorem subscript_out_of_range_exact_store (v : Var) (n : Str) (arr : List Val) (x : Val)
+    (hnum : ∀ y ∈ arr, y.isNumeric = true) (hb : ¬ InBounds arr (dimsOf v n arr.length)) :
+    (v.storeArray n arr x).2 = err Code.subscriptOutOfRange ∧ (v.storeArray n arr x).1.vars = v.vars := by
+  rcases vecValToVecI16_numeric arr hnum with ⟨herr, _⟩ | ⟨is, hok, hiff⟩
+  · have := (bounds_conv_error v n arr x _ herr).2
+    rw [this]; exact ⟨rfl, rfl⟩
+  · have hlen := vecValToVecI16_length hok
+    have hacc : ¬ Accepts is (dimsOf v n is.length) := by
+      rw [hlen]
+      exact fun hacc => hb ((hiff _).2 ((accepts_iff _ _).1 hacc))
+    rw [(bounds_store v n arr is x hok).2 hacc]
+    exact ⟨rfl, autoDim_vars v n is.length⟩
+
+/-- DIM with numeric bounds fails only with SUBSCRIPT OUT OF RANGE (or REDIMENSIONED ARRAY) -/
+theorem dim_numeric_error (v : Var) (n : Str) (arr : List Val) (hnum : ∀ y ∈ arr, y.isNumeric = true)
+    (e : Error) (h : v.dimensionArray n arr = .error e) :
+    e = Error.mk' Code.redimensionedArray ∨ e = Error.mk' Code.subscriptOutOfRange := by
+  unfold dimensionArray at h
+  split at h
+  · left; cases h; rfl
+  · right
+    rcases vecValToVecI16_numeric arr hnum with ⟨herr, _⟩ | ⟨is, hok, _⟩
+    · rw [herr] at h; cases h; rfl
+    · rw [hok] at h; cases h
+
+example : (Var.new.fetchArray "A".toList [.sng 0x47000000]).2 = err Code.subscriptOutOfRange ∧
+    (Var.new.fetchArray "A".toList [.dbl 0x7ff8000000000000]).2 = err Code.subscriptOutOfRange ∧
+    (Var.new.fetchArray "A".toList [.sng 0xc7000100]).2 = err Code.subscriptOutOfRange ∧
+    (Var.new.fetchArray "A".toList [.sng 0x40200000]).2 = .ok (.sng 0) ∧
+    (Var.new.fetchArray "A".toList [.str []]).2 = err Code.typeMismatch := by decide
+
+example : InBounds [.int 10, .sng 0x40200000] [10, 10] :=
+  ⟨⟨10, rfl, by decide, by decide⟩, ⟨2, by decide, by decide, by decide⟩, trivial⟩
 
 /-! ### invariant preservation for the array operations -/
 
